@@ -212,7 +212,13 @@ def run_exec(root: str, spec: dict[str, Any], roles: dict[str, str], knobs: dict
             return os.terminal_size((int(term[0]), int(term[1])))
 
         os.get_terminal_size = _gts  # type: ignore[assignment]
-    with cap, env:
+    import warnings as _warnings
+
+    with cap, env, _warnings.catch_warnings():
+        if knobs.get("warnings"):
+            # the interpreter was started with -W error / PYTHONWARNINGS=error (or a test runner turned
+            # warnings into errors): part of the environment
+            _warnings.simplefilter(knobs["warnings"])
         blocking.arm()
         try:
             value, exc, steps, timed_out = run_clocked(call, spec.get("budget", DEFAULT_BUDGET))
